@@ -1,6 +1,7 @@
 extern crate iceoryx2_bb_loggers;
 mod common;
 mod c01_pubsub;
+mod c08_zcc;
 mod c11_reqres;
 mod c14_reloc;
 mod c18_ffi;
@@ -59,6 +60,7 @@ fn main() {
         "waitset" => go!(c20_waitset::generate, || c20_waitset::WaitSetComp::new()),
         "ffi" => go!(c18_ffi::generate, || c18_ffi::FfiComp::new()),
         "relptr" => go!(c14_reloc::generate, || c14_reloc::RelPtrComp::new()),
+        "zcc" => go!(c08_zcc::generate, || c08_zcc::ZccComp::new()),
         "alloc" => go!(c15_alloc::generate, || c15_alloc::AllocComp::new()),
         "names" => go!(c19_names::generate, || c19_names::NamesComp::new()),
         "vec" => go!(c16_vec::generate, || c16_vec::VecComp::new()),
